@@ -125,6 +125,30 @@ Theorem C11_revocation_notified : forall w h c g r,
 Proof. exact notified. Qed.
 Print Assumptions C11_revocation_notified.
 
+(* (4) The revocation is effective (b21f80e): once the target's loop has
+   applied unpresent / shutup / unop, the permission is not in its list, for
+   EVERY previous list, lists with duplicated entries included (a token made
+   by maketoken may grant [present; present]). *)
+Theorem C11_revocation_effective : forall w h c g kind r,
+  get_client w h = Some c -> c_group c = Some g ->
+  handle_action w h c (AChangePerms g kind) = Ok r -> r_err r = ENone ->
+  exists c', get_client (r_world r) h = Some c' /\
+    (kind = "unpresent" -> mem "present" (c_perms c') = false) /\
+    (kind = "shutup" -> mem "message" (c_perms c') = false) /\
+    (kind = "unop" -> mem "op" (c_perms c') = false /\ mem "record" (c_perms c') = false).
+Proof. exact revocation_effective. Qed.
+Print Assumptions C11_revocation_effective.
+
+(* X3: the list a member holds after joining with a token minted with
+   duplicated permissions *)
+Example C11_example_X3 :
+  change_perms false "unpresent" ["present"; "present"; "message"; "message"]
+    = Some ["message"; "message"] /\
+  change_perms false "shutup" ["present"; "present"; "message"; "message"]
+    = Some ["present"; "present"] /\
+  change_perms true "unop" ["op"; "record"; "op"; "message"; "record"] = Some ["message"].
+Proof. vm_compute. repeat split; reflexivity. Qed.
+
 (* WHIP: an ingest session is created only with credentials that were
    admitted with `present` (every refusal leaves no session), and a later
    request on a session created with a bearer token is served only if it
